@@ -5,7 +5,7 @@ import os
 
 from hypothesis import strategies as st
 
-from ..runner import Violation, unexpected, digest, REPO
+from ..runner import Violation, unexpected, digest, REPO, guarded
 from ..ref import wire as W, script as S, interp as I, secp, sighash as RS, hashes as H, opnames as O
 from .. import libx, gen
 
@@ -153,7 +153,7 @@ THIRD = [bytes([op]) for op in (0x51, 0x00, 0x63, 0x64, 0x67, 0x68, 0x69, 0x6b, 
 
 def _direct(ctx, case, agg):
     try:
-        info = check_case(case)
+        info = guarded(check_case, case)
     except Violation as v:
         ctx.evals += 1
         ctx.violation(v, case)
@@ -313,6 +313,19 @@ def t_p2sh(ctx):
     ctx.bulk(agg['n'], agg['nt'], agg['cls'], agg['sample'],
              '%d redeem scripts x %d scriptSig prefixes x 2 push encodings x all %d flag subsets (P2SH grid + 4 look-alike scriptPubKeys)' % (
                  len(P2SH_REDEEMS), len(P2SH_PREFIXES), len(FLAG_SUBSETS)) if ctx.shard == 0 else None)
+
+
+def t_hashlen(ctx):
+    """RIPEMD160 / SHA1 / SHA256 / HASH160 / HASH256 on elements of EVERY length 0..320 and at the 520-byte limit: the
+    block-padding boundaries (55/56, 63/64, 119/120 ...) of each compression function"""
+    agg = {'n': 0, 'nt': 0, 'cls': {}, 'sample': None}
+    for L in ctx.my(list(range(0, 321)) + [447, 448, 511, 512, 519, 520]):
+        data = bytes((L * 7 + i * 13 + 1) % 256 for i in range(L))
+        for op in (0xa6, 0xa7, 0xa8, 0xa9, 0xaa):
+            _direct(ctx, {'kind': 'eval', 'script': (S.push_enc(data) + bytes([op])).hex(), 'stack': [], 'flags': []}, agg)
+            _direct(ctx, {'kind': 'eval', 'script': bytes([op]).hex(), 'stack': [data.hex()], 'flags': []}, agg)
+    ctx.bulk(agg['n'], agg['nt'], agg['cls'], agg['sample'],
+             '5 hash opcodes x every element length 0..320 and {447,448,511,512,519,520}' if ctx.shard == 0 else None)
 
 
 # ---- (ii) stack-aware grammar
@@ -641,5 +654,5 @@ def coverage_gaps(classes, tier):
     return gaps
 
 
-TASKS = [('exhaustive', (t_exhaustive, 16)), ('limits', (t_limits, 8)), ('p2sh', (t_p2sh, 8)), ('grammar', (t_grammar, 12)), ('signed', (t_signed, 16)),
+TASKS = [('exhaustive', (t_exhaustive, 16)), ('limits', (t_limits, 8)), ('p2sh', (t_p2sh, 8)), ('hashlen', (t_hashlen, 2)), ('grammar', (t_grammar, 12)), ('signed', (t_signed, 16)),
          ('mutvec', (t_mutvec, 8)), ('fuzz', (t_fuzz, lambda tier: 2 if tier == 'quick' else 8))]
